@@ -120,11 +120,24 @@ PROPS = {
              shards=(8, 16), n=(6, 60),
              trusted=["byte-level totality of encoding/gob, encoding/json and json-gold is OBSERVED (structured enumeration + mutation fuzzing), not proved: it is outside any model",
                       "go-merkletree-sql's JSON decoder for proofs (see known finding F6)"]),
+    "C14": P("cases = generated credentials of the supported shape (optional id / expiration / refresh service / display method, dates written with offsets and milliseconds, merklized and serialized schemas, any subject object) with 0-4 "
+             "attached proofs (BJJ, both sparse-Merkle-tree kinds, unknown types with nested content; single proof as object or array): struct-view root vs root of the original JSON without proof vs root without any proof; "
+             "encode/decode round trip compared field by field, by concrete proof kinds and by VerifyProof outcome for both proof types; DID documents with 0-3 authentication entries as references or embedded methods, "
+             "state info and a global-state proof: decode -> encode -> decode stable and equal to the input as generic JSON; non-trivial = every case; distinct = distinct (op,input) hashes",
+             shards=(8, 16), n=(8, 150),
+             trusted=["encoding/json struct (de)serialisation and time.Time's JSON form (modelled at member level: Gsp.Json.view/unview; parse/render of times are parameters with the round-trip assumption parse(render t) = t)",
+                      "json-gold for the roots (see C01-C03)"]),
 }
 
 NOT_APPLICABLE = {}
 
 MANIFEST_TEXT = {
+    "C14": dict(
+        text="Lean theorems (Gsp.Props.C14 over Gsp.Json.view / unview, the member-level model of W3CCredential's JSON codec): view_lossless - for the supported shape every known member survives decode+encode as the same JSON value (contexts, "
+             "types, subject, status, issuer, schema, proofs, id, refresh service, display method) and each date as a string denoting the same instant; root_indep_of_proofs - the document that is merklized (encoding minus proof) does not depend on "
+             "the proof member at all; unview_only_known; proof_kind_dispatch (type string -> concrete kind, unknown -> passthrough). Tie: real json.Unmarshal / W3CCredential.Merklize / json.Marshal vs MerklizeJSONLD of the original JSON "
+             "(roots equal), the model's view of the same JSON (nothing lost), round-trip equality, proof kinds and verification outcomes; DID documents stable under the round trip.",
+        note="Time parsing/formatting enter as parameters (round-trip assumption stated as hypothesis hrt). The JSON-LD meaning of the members (facts) is covered by C01-C03; here the statement is member-level equality, which implies equal facts."),
     "C12": dict(
         text="Lean: every model function is total (no `partial`, termination checked); named unreachable bad outcomes: the parent walk is bounded and a reference cycle is an error for every fuel (path_bounded, entries_no_diverge), a negative or "
              "oversized entry count is an error before allocation (unmarshal_count_guard), a hasher yielding no element makes value / key hashing an error (enc_total_string, keyHash_total), every combination of absent optional members of "
